@@ -332,6 +332,8 @@ func c08Tasks(tier string) []Task {
 	sl.Index = 2
 	hm1 := defaultCfg
 	hm1.Shards = 1
+	rot := defaultCfg
+	rot.FileSize = 64 // every record rotates the active file: writers racing a Merge roll the file over during the scan
 	var levels []c08Level
 	if tier == "quick" {
 		levels = []c08Level{
@@ -342,9 +344,9 @@ func c08Tasks(tier string) []Task {
 			{"batch+1", -1, c08Inits, []Cfg{hm, bt}},
 			{"batch+2", 3, c08Inits, []Cfg{hm}},
 			{"2+1+1", 2, c08Inits, []Cfg{hm}},
-			{"merge+1", -1, c08MergeInits, []Cfg{hm, bt, sl}},
-			{"merge+2", 3, c08MergeInits, []Cfg{hm, bt}},
-			{"merge+1+1", 2, c08MergeInits, []Cfg{hm}},
+			{"merge+1", -1, c08MergeInits, []Cfg{hm, bt, sl, rot}},
+			{"merge+2", 3, c08MergeInits, []Cfg{hm, bt, rot}},
+			{"merge+1+1", 2, c08MergeInits, []Cfg{hm, rot}},
 		}
 	} else {
 		levels = []c08Level{
@@ -356,9 +358,9 @@ func c08Tasks(tier string) []Task {
 			{"2+1+1", 4, c08Inits, []Cfg{hm, bt}},
 			{"batch+1", -1, c08Inits, []Cfg{hm, bt, sl}},
 			{"batch+2", -1, c08Inits, []Cfg{hm, bt}},
-			{"merge+1", -1, c08MergeInits, []Cfg{hm, bt, sl}},
-			{"merge+2", -1, c08MergeInits, []Cfg{hm, bt, sl}},
-			{"merge+1+1", 4, c08MergeInits, []Cfg{hm, bt}},
+			{"merge+1", -1, c08MergeInits, []Cfg{hm, bt, sl, rot}},
+			{"merge+2", -1, c08MergeInits, []Cfg{hm, bt, sl, rot}},
+			{"merge+1+1", 4, c08MergeInits, []Cfg{hm, bt, rot}},
 		}
 	}
 	var tasks []Task
